@@ -8,7 +8,23 @@ use wow_mpq::{SecurityLimits, SessionTracker, compress, decompress};
 const LOSSLESS: &[(u8, &str)] = &[(0x02, "zlib"), (0x10, "bzip2"), (0x12, "lzma"), (0x20, "sparse"), (0x08, "pkware"), (0x22, "sparse+zlib"), (0x30, "sparse+bzip2")];
 const LOSSY: &[(u8, &str)] = &[(0x40, "adpcm-mono"), (0x80, "adpcm-stereo"), (0x42, "adpcm-mono+zlib"), (0x41, "adpcm-mono+huffman"), (0x81, "adpcm-stereo+huffman"), (0x82, "adpcm-stereo+zlib")];
 const COMPRESS_ONLY_ERR: &[(u8, &str)] = &[(0x01, "huffman"), (0x04, "implode")];
-const CLASSES: &[&str] = &["zero", "ff", "period2", "period3", "period255", "runs", "litruns", "random", "text", "half", "sparse"];
+const CLASSES: &[&str] = &["zero", "ff", "period2", "period3", "period255", "runs", "litruns", "random", "text", "half", "sparse", "tailz1", "tailz2", "tailz3", "tailz129"];
+
+/// vh_common's content classes plus `tailz<k>`: sparse content that ends in a non-zero byte followed by exactly k zero bytes
+/// (run-length coders end their last run at the buffer end: the encoder's final marker and the decoder's clamp must agree).
+fn content(rng: &mut vh_common::Rng, class: &str, len: usize) -> Vec<u8> {
+    if let Some(k) = class.strip_prefix("tailz").and_then(|k| k.parse::<usize>().ok()) {
+        let mut d = gen_content(rng, "sparse", len);
+        if len > k {
+            d[len - k - 1] = 0x55;
+            for b in &mut d[len - k..] {
+                *b = 0;
+            }
+        }
+        return d;
+    }
+    gen_content(rng, class, len)
+}
 
 fn lengths(thorough: bool) -> Vec<usize> {
     let mut v: Vec<usize> = (0..=40).collect();
@@ -189,7 +205,7 @@ fn main() {
                 let chunk = chunk.to_vec();
                 run.case(i, &format!("{mname}|{class}|chunk{ci}"), json!({"selector": mname, "class": class, "lengths": chunk}), |c| {
                     for &len in &chunk {
-                        let d = gen_content(&mut rng, class, len);
+                        let d = content(&mut rng, class, len);
                         c.count("triples", 1);
                         check_lossless(c, m, mname, class, &d);
                     }
@@ -211,7 +227,7 @@ fn main() {
         let top = if thorough { 1usize << 20 } else { 1usize << 16 };
         let len = match k % 3 { 0 => rng.usize(600), 1 => rng.usize(70_000), _ => rng.usize(top) };
         run.case(i, &format!("{mname}|{class}|random-len|2^{}", (len.max(1)).ilog2()), json!({"selector": mname, "class": class, "len": len}), |c| {
-            let d = gen_content(&mut rng, class, len);
+            let d = content(&mut rng, class, len);
             c.count("triples", 1);
             check_lossless(c, m, mname, class, &d);
         });
